@@ -27,6 +27,7 @@
 #include <iomanip>
 #include <ostream>
 #include <sstream>
+#include <string>
 
 
 // project includes
@@ -153,14 +154,23 @@ void Format::formatDateTime( std::ostream& dest, const Field& field_def,
 {
 
    // format date, time or timestamp
-   auto const  use_format_str = field_def.mConstant.empty() ? format_str :
-                                field_def.mConstant.c_str();
-   char        timestamp_str[ 128];
+   // the leading blank makes sure that the result is never empty, so a return
+   // value of 0 from strftime() always means that the buffer was too small
+   const std::string  use_format_str( std::string( " ")
+      + (field_def.mConstant.empty() ? format_str
+                                     : field_def.mConstant.c_str()));
+   auto const         time_data = ::localtime( &timestamp);
+   std::string        timestamp_str( 128, '\0');
+   size_t             length = 0;
 
 
-   ::strftime( timestamp_str, sizeof( timestamp_str) - 1, use_format_str,
-               ::localtime( &timestamp));
-   append( dest, field_def, timestamp_str);
+   while ((length = ::strftime( &timestamp_str[ 0], timestamp_str.size(),
+                                use_format_str.c_str(), time_data)) == 0)
+   {
+      timestamp_str.resize( 2 * timestamp_str.size());
+   } // end while
+
+   append( dest, field_def, timestamp_str.substr( 1, length - 1));
 
 } // Format::formatDateTime
 
